@@ -205,7 +205,9 @@ class Ctx:
         meta = tempfile.mkdtemp(prefix="meta-", dir=self.work)
         cp = TLA_JARS if pure else os.path.join(VERIF, "accel", "classes") + ":" + TLA_JARS
         lib = ":".join(os.path.join(VERIF, "spec", x) for x in ("lib", "params"))
-        cmd = ["java", "-XX:+UseSerialGC", "-Xss64m", "-Xmx" + heap, "-DTLA-Library=" + lib, "-cp", cp, "tlc2.TLC",
+        jtmp = os.path.join(self.work, "jtmp")     # TLC unpacks its standard modules into java.io.tmpdir and leaves them there
+        os.makedirs(jtmp, exist_ok=True)
+        cmd = ["java", "-XX:+UseSerialGC", "-Xss64m", "-Xmx" + heap, "-Djava.io.tmpdir=" + jtmp, "-DTLA-Library=" + lib, "-cp", cp, "tlc2.TLC",
                "-metadir", meta, "-workers", str(workers), "-noGenerateSpecTE",
                "-config", (cfg or module) + ".cfg"]
         if simulate:
